@@ -26,7 +26,8 @@ FRAME_IFACES = ['iter_array', 'iter_array_items', 'iter_series', 'iter_series_it
                 'iter_element', 'iter_element_items', 'iter_group', 'iter_group_items', 'iter_window', 'iter_window_items',
                 'iter_window_array', 'iter_window_array_items', 'iter_group_labels', 'iter_group_labels_items']
 BATCH_STEPS = ['apply', 'apply_items', 'apply_series', 'apply_element', 'iloc', 'loc_cols', 'mul', 'sum', 'getitem', 'head',
-               'apply_except', 'apply_items_except', 'rename', 'sort_index', 'transpose', 'cumsum', 'drop', 'min', 'neg', 'loc_rows', 'tail']
+               'apply_except', 'apply_items_except', 'rename', 'sort_index', 'transpose', 'cumsum', 'drop', 'min', 'neg', 'loc_rows', 'tail',
+               'sum_noskip', 'mean', 'max']
 
 
 def gen_cells(ch, nr, j, kind):
@@ -56,6 +57,9 @@ def gen_frame(ch, name, nr=None, nc=None, numeric=False, hier=None):
 
 
 def build_frame(sf, spec):
+    if any(isinstance(v, dict) for c in spec['cols'] for v in c):
+        spec = dict(spec)
+        spec['cols'] = [[float('nan') if isinstance(v, dict) else v for v in c] for c in spec['cols']]
     if spec['hier']:
         index = sf.IndexHierarchy.from_labels([tuple(t) for t in spec['index']])
     else:
@@ -217,6 +221,12 @@ class PoolWorld(WorldBase):
     def gen_batch_pool(self, ch):
         n = ch.randint(1, 5)
         frames = [gen_frame(ch, 'b%d' % i, nr=ch.randint(1, 4), nc=ch.randint(2, 4), numeric=True, hier=False) for i in range(n)]
+        if ch.chance(0.4):
+            # missing values: NA handling is part of what a Batch must pass through unchanged
+            for f in frames:
+                for c in f['cols']:
+                    if c and isinstance(c[0], float) and ch.chance(0.5):
+                        c[ch.randint(0, len(c) - 1)] = {'nan': 1}
         depth = ch.randint(1, 3)
         chain = [ch.choice(BATCH_STEPS) for _ in range(depth)]
         op = {'op': 'batch_pool', 'frames': frames, 'chain': chain, 'export': ch.choice(['items', 'to_frame', 'to_bus', 'items_partial', 'to_frame_axis1']),
@@ -258,8 +268,11 @@ class PoolWorld(WorldBase):
         self.nstates += 1
 
     def apply(self, op, dec_):
+        import warnings
         self.opstat(op['op'])
-        return getattr(self, 'do_' + op['op'])(op, dec_)
+        with warnings.catch_warnings():
+            warnings.simplefilter('ignore')
+            return getattr(self, 'do_' + op['op'])(op, dec_)
 
     def _cls(self, op):
         return ('threads' if op.get('threads') else 'processes') + (',chunksize>1' if op.get('chunk', 1) > 1 and not op.get('threads') else '')
@@ -499,6 +512,20 @@ class PoolWorld(WorldBase):
                 b = b.iloc[[0]]
             elif step == 'tail':
                 b = b.tail(1)
+            elif step == 'sum_noskip':
+                b = b.sum(skipna=False)
+            elif step == 'mean':
+                b = b.mean()
+            elif step == 'max':
+                b = b.max(axis=1)
+            elif step == 'fillna':
+                b = b.fillna(-1)
+            elif step == 'dropna':
+                b = b.dropna()
+            elif step == 'isna':
+                b = b.isna()
+            elif step == 'count':
+                b = b.count()
         return b
 
     def _batch_run(self, op, workers):
@@ -594,6 +621,20 @@ class PoolWorld(WorldBase):
                         c = c.iloc[[0]]
                     elif step == 'tail':
                         c = c.tail(1)
+                    elif step == 'sum_noskip':
+                        c = c.sum(skipna=False)
+                    elif step == 'mean':
+                        c = c.mean()
+                    elif step == 'max':
+                        c = c.max(axis=1)
+                    elif step == 'fillna':
+                        c = c.fillna(-1)
+                    elif step == 'dropna':
+                        c = c.dropna()
+                    elif step == 'isna':
+                        c = c.isna()
+                    elif step == 'count':
+                        c = c.count()
                 except pf.TaskFailure:
                     if step in ('apply_except', 'apply_items_except'):
                         dropped = True
